@@ -101,7 +101,8 @@ TYPE_NAMES = {"dict": dict, "list": list, "tuple": tuple, "str": str, "bytes": b
 
 
 class Evaluator(object):
-    def __init__(self, prog, module, cls=None, max_runs=4096):
+    def __init__(self, prog, module, cls=None, max_runs=4096, lenient=False):
+        self.lenient = lenient      # unmodelled *value* expressions become opaque symbols (conditions on them fork)
         self.prog = prog
         self.module = module
         self.cls = cls
@@ -147,6 +148,10 @@ class Evaluator(object):
         if isinstance(v, Obj):
             return True
         if isinstance(v, Opaque):
+            if v.truthy is None:
+                if v.label in self.sym_truth:
+                    return self.sym_truth[v.label]
+                return self._decide("truth(%s)" % v.label, v.label)
             return v.truthy
         if isinstance(v, Sym):
             if v.truthy is not None:
@@ -235,6 +240,13 @@ class Evaluator(object):
             return
         if isinstance(st, ast.Pass):
             return
+        if isinstance(st, ast.AugAssign) and self.lenient:
+            self.expr(st.value, env, fi)
+            self.assign(st.target, Sym("opaque:" + dump(st)[:60]), env, fi)
+            return
+        if isinstance(st, ast.With) and self.lenient:
+            self.block(st.body, env, fi)
+            return
         raise AnalysisError("statement not modelled by the shape interpreter: %s (%s)" % (
             type(st).__name__, fi.fq))
 
@@ -247,6 +259,8 @@ class Evaluator(object):
                 o.attrs[t.attr] = v
                 return
             if not isinstance(o, Obj):
+                if self.lenient:
+                    return       # store on a class / module object: irrelevant to the returned shape
                 raise AnalysisError("attribute store on %r" % (o,))
             o.attrs[mangle(o.cls, t.attr) if o.cls else t.attr] = v
         elif isinstance(t, ast.Subscript):
@@ -348,6 +362,8 @@ class Evaluator(object):
             if self.truth(self.expr(e.test, env, fi)):
                 return self.expr(e.body, env, fi)
             return self.expr(e.orelse, env, fi)
+        if self.lenient and isinstance(e, (ast.BinOp, ast.JoinedStr, ast.ListComp, ast.DictComp, ast.GeneratorExp)):
+            return Sym("opaque:" + dump(e)[:60])
         raise AnalysisError("expression not modelled by the shape interpreter: %s" % dump(e))
 
     def global_value(self, e, fi):
@@ -444,7 +460,16 @@ class Evaluator(object):
                     raise _Raise(type(ex).__name__)
             return Sym("float(%s)" % a.label, truthy=a.truthy, rep=None if a.rep is None else float(a.rep), pytype=float)
         if fname == "type" and len(args) == 1:
+            if isinstance(args[0], K) and args[0].v is None:
+                return K("type:NoneType")
             return Sym("type(%s)" % getattr(args[0], "label", "v"), truthy=True)
+        if fname == "tuple" and len(args) == 1 and isinstance(args[0], L) and all(isinstance(x, K) for x in args[0].elts):
+            return K(tuple(x.v for x in args[0].elts))
+        if isinstance(f, ast.Attribute) and f.attr == "append" and len(args) == 1:
+            base = self.expr(f.value, env, fi)
+            if isinstance(base, L):
+                base.elts.append(args[0])
+                return K(None)
         if isinstance(f, ast.Attribute) and f.attr == "format":
             return Sym("formatted-string", truthy=True, pytype=str)
         if isinstance(f, ast.Attribute) and isinstance(f.value, ast.Name) and f.value.id in ("_logger", "logging"):
@@ -513,6 +538,8 @@ class Evaluator(object):
             attrs = dict(kwargs)
             attrs["__args__"] = L(args)
             return Opaque(cname, attrs)
+        if self.lenient:
+            return Sym("opaque:" + dump(e)[:60])
         raise AnalysisError("call not modelled by the shape interpreter: %s" % dump(e))
 
 
